@@ -180,6 +180,11 @@ func GenSchedule(r *hx.Rand, rounds int) []uint64 {
 func Shrinks(c *Case) []*Case {
 	var out []*Case
 	// presentation: the plain document; object types instead of interfaces / unions
+	if c.LazyIdle {
+		d := c.Clone()
+		d.LazyIdle = false
+		out = append(out, d)
+	}
 	if c.Syntax != 0 {
 		d := c.Clone()
 		d.Syntax = 0
